@@ -23,6 +23,8 @@ CLAIMS.update({
                 design="DESIGN.md section 5 C13"),
     "C17": dict(technique="static analysis: interprocedural may-depend (explicit information flow, must-not-depend) over MIR with alias and closure handling",
                 design="DESIGN.md section 5 C17"),
+    "C18": dict(technique="static analysis: interprocedural may-depend (must-depend queries per XOF binding), absorption-shape and guard-relation rules over MIR",
+                design="DESIGN.md section 5 C18"),
     "C19": dict(technique="static analysis: guard-relation/dominance, decision-table and sibling-agreement (shared layout expression) rules over MIR",
                 design="DESIGN.md section 5 C19"),
     "C20": dict(technique="static analysis: predicate-shape extraction (guard relations, quantifier form, closure bodies) and who-may-construct over MIR",
